@@ -150,3 +150,6 @@ Print Assumptions C07_cover_full_refuted.
 Print Assumptions C07_cover_partial.
 Print Assumptions C07_straggler_refuted.
 Print Assumptions C07_request_is_fresh.
+Print Assumptions C07_cover_full_witness.
+Print Assumptions C07_straggler_witness.
+Print Assumptions C07_fresh_request_inhabited.
